@@ -3,3 +3,12 @@ import XProofs.Properties.C11
 #print axioms Properties.C11.C11_print_injective
 #print axioms Properties.C11.C11_load_dump_reacts_identically
 #print axioms Properties.C11.C11_same_definitions_same_behaviour
+#print axioms Properties.C11.C11_load_is_the_fold
+#print axioms Properties.C11.C11_overwrite_last_pair_wins
+#print axioms Properties.C11.C11_no_overwrite_first_wins
+#print axioms Properties.C11.C11_load_evaluates_nothing
+#print axioms Properties.C11.C11_load_twice_is_once
+#print axioms Properties.C11.C11_rebound_expression_means_the_same
+#print axioms Properties.C11.C11_copy_definitions_are_the_rerooted_ones
+#print axioms Properties.C11.C11_copy_without_overwrite_keeps_old
+#print axioms Properties.C11.C11_copied_definition_holds
